@@ -199,7 +199,15 @@ def gen_section(rng, u, sec_no, max_items=7):
         if r < 0.5 or (union and n_fields < 2 and j >= n - 2):
             t = GT.gen_type(rng, len(u), 1, True, True)
             name = "s%df%d" % (sec_no, j)
-            it = {"kind": "field", "type": t, "name": name, "toks": type_tokens(rng, t, u) + [R, name]}
+            caps = [(nm, val) for nm, val, ty in known if 1 <= val <= 64]
+            if t[0] in ("fixed", "var") and caps and rng.random() < 0.5:
+                # the capacity is spelled through a constant of this section
+                nm, val = rng.choice(caps)
+                t = (t[0], t[1], val)
+                toks = type_tokens(rng, t[1], u) + [O, "[", O] + ([] if t[0] == "fixed" else ["<=", O]) + [nm, O, "]"]
+                it = {"kind": "field", "type": t, "name": name, "toks": toks + [R, name]}
+            else:
+                it = {"kind": "field", "type": t, "name": name, "toks": type_tokens(rng, t, u) + [R, name]}
             n_fields += 1
             ftypes.append(t)
         elif r < 0.62 and not union:
@@ -209,14 +217,23 @@ def gen_section(rng, u, sec_no, max_items=7):
         elif r < 0.9:
             t = rng.choice([("bool",), ("uint", rng.randrange(1, 65), rng.choice(["sat", "trunc"])), ("uint", 8, "sat"),
                             ("int", rng.randrange(2, 65)), ("float", rng.choice([16, 32, 64]), rng.choice(["sat", "trunc"]))])
-            name = "S%dC%d" % (sec_no, j)
+            # some constant names are shared by the sections of a service (each section is a name space of its own)
+            name = ("K%d" % j) if rng.random() < 0.4 else "S%dC%d" % (sec_no, j)
+            if rng.random() < 0.3:
+                t = rng.choice([("uint", 8, "sat"), ("uint", 7, "trunc"), ("int", 8), ("uint", 16, "sat")])
             val, vt, cls = const_value_and_tokens(rng, t, known)
+            if t[0] in ("uint", "int") and cls == ["const-int"] and rng.random() < 0.35:
+                val = rng.randrange(1, 40) if t[1] >= 7 else val
+                vt = int_expr(rng, val) if t[1] >= 7 else vt
             it = {"kind": "const", "type": t, "name": name, "value": val, "classes": cls,
                   "toks": type_tokens(rng, t, u) + [R, name, O, "=", O] + vt}
             if t[0] in ("uint", "int"):
                 known.append((name, val, t[0]))
         else:
-            if rng.random() < 0.5:
+            if known and rng.random() < 0.5:
+                nm, val, _ty = rng.choice(known)
+                it = {"kind": "assert", "toks": ["@assert", R, nm, O, "==", O] + (["(", O] + int_expr(rng, val) + [O, ")"] if val >= 0 else ["-", O, int_literal(rng, -val)])}
+            elif rng.random() < 0.5:
                 it = {"kind": "assert", "toks": ["@assert", R] + rng.choice([["true"], ["1", O, "+", O, "1", O, "==", O, "2"], ["!", O, "false"], ["2", O, "**", O, "10", O, "==", O, "1024"]])}
             else:
                 it = {"kind": "print", "toks": ["@print", R] + rng.choice([["1", O, "+", O, "1"], ["'text'"], ["true"], ["{", O, "1", O, ",", O, "2", O, "}"]])}
